@@ -79,7 +79,10 @@ Definition eng_command (inp impl : node) : verdict :=
         let spec_ok := match impl with
                        | Str r => strs_eqb (segments r) (segments (nstr a) ++ segs)
                        | _ => false end in
-        {| model_obs := if constrained then m else impl; violated := if constrained && negb spec_ok then [lit "C15"] else [] |}
+        (* an empty string contributes no segment (the model skips it, as the code does); what is open is an argument that
+           contains the separator *)
+        let no_sep := forallb (fun g => negb (existsb (N.eqb sep) g)) segs in
+        {| model_obs := if validb (nstr a) && no_sep then m else impl; violated := if constrained && negb spec_ok then [lit "C15"] else [] |}
       else bad
   | _ => bad
   end.
